@@ -73,11 +73,11 @@ func allConfigs() []*config {
 	add := func(c *config) { cs = append(cs, c) }
 
 	// ---- from the empty table: small menus, deep
-	add(&config{family: "go-empty", name: "empty/arr", menu: []string{"i1", "i2", "i3", "i4", "f2", "i5"}, depthQ: 5, depthT: 6})
-	add(&config{family: "go-empty", name: "empty/zero", menu: []string{"i0", "f0", "f-0", "i-1", "i1", "f1"}, depthQ: 5, depthT: 6})
-	add(&config{family: "go-empty", name: "empty/mix", menu: []string{"i1", "f1", "s:a", "true", "T02a", "f1.5"}, depthQ: 5, depthT: 6})
-	add(&config{family: "go-empty", name: "empty/clo", menu: []string{"C40a", "C41a", "U42a", "U43a", "W44a", "W45a"}, depthQ: 5, depthT: 6})
-	add(&config{family: "go-empty", name: "empty/str", menu: []string{"S01a", "S17a", "S05a", "S05b", "L05a", "s:"}, depthQ: 5, depthT: 6})
+	add(&config{family: "go-empty", name: "empty/arr", menu: []string{"i1", "i2", "i3", "i4", "f2", "i5"}, depthQ: 4, depthT: 6})
+	add(&config{family: "go-empty", name: "empty/zero", menu: []string{"i0", "f0", "f-0", "i-1", "i1", "f1"}, depthQ: 4, depthT: 6})
+	add(&config{family: "go-empty", name: "empty/mix", menu: []string{"i1", "f1", "s:a", "true", "T02a", "f1.5"}, depthQ: 4, depthT: 6})
+	add(&config{family: "go-empty", name: "empty/clo", menu: []string{"C40a", "C41a", "U42a", "U43a", "W44a", "W45a"}, depthQ: 4, depthT: 6})
+	add(&config{family: "go-empty", name: "empty/str", menu: []string{"S01a", "S17a", "S05a", "S05b", "L05a", "s:"}, depthQ: 4, depthT: 6})
 	add(&config{family: "go-empty", name: "empty/big", menu: []string{"i2^53", "f2^53", "i2^62", "f2^62", "f2^63", "imax", "imin", "f-2^63"}, depthQ: 4, depthT: 5})
 	add(&config{family: "go-empty", name: "empty/wide", menu: []string{"i1", "i2", "i3", "f3", "i0", "i-1", "s:a", "s:abcdefgh", "true", "false", "f1.5", "G47a"}, depthQ: 3, depthT: 4})
 
